@@ -23,10 +23,13 @@ EXTENDS Integers, Sequences, FiniteSets, TLC
 
 CONSTANTS MaxInst,      \* instances created by a history (the static one not counted)
           MaxWrappers,  \* wrapper slots
-          MaxDepth      \* steps per history
+          MaxDepth,     \* steps per history
+          MaxMarks      \* kinds of steps without effect on the heap that a history may contain
 
-VARIABLES inst, wr, hist
-vars == <<inst, wr, hist>>
+\* marks: the kinds of effect-free steps taken so far (part of the state, so that breadth-first
+\* search keeps histories containing them although they reach no new heap)
+VARIABLES inst, wr, hist, marks
+vars == <<inst, wr, hist, marks>>
 
 NoW == [ptr |-> 0, mem |-> FALSE, const |-> FALSE]
 Slots == 1..MaxWrappers
@@ -36,13 +39,17 @@ Free == {w \in Slots : ~Live(w)}
 NewSlot == CHOOSE w \in Free : \A v \in Free : w <= v
 
 \* instance 1 is the static instance behind global_ptr()
-Static == [alive |-> TRUE, owner |-> "cpp", parent |-> 0, child |-> 0, destroyed |-> 0, touched |-> 0, killer |-> "none"]
-NewInst(o, par) == [alive |-> TRUE, owner |-> o, parent |-> par, child |-> 0, destroyed |-> 0, touched |-> 0, killer |-> "none"]
+\* origin (how the instance came to be) keeps by-value returns apart from constructor calls in the
+\* breadth-first search, so that histories with either are kept
+Static == [alive |-> TRUE, owner |-> "cpp", parent |-> 0, child |-> 0, destroyed |-> 0, touched |-> 0, killer |-> "none", origin |-> "static"]
+NewInstO(o, par, org) == [alive |-> TRUE, owner |-> o, parent |-> par, child |-> 0, destroyed |-> 0, touched |-> 0, killer |-> "none", origin |-> org]
+NewInst(o, par) == NewInstO(o, par, IF o = "py" THEN "ctor" ELSE "part")
 Made == Len(inst) - 1
 Died == Cardinality({i \in 1..Len(inst) : inst[i].destroyed > 0})
 CanCreate == Made < MaxInst
 
-Init == inst = <<Static>> /\ wr = [w \in Slots |-> NoW] /\ hist = <<>>
+Init == inst = <<Static>> /\ wr = [w \in Slots |-> NoW] /\ hist = <<>> /\ marks = {}
+Mark(m) == (m \in marks \/ Cardinality(marks) < MaxMarks) /\ marks' = marks \cup {m}
 
 Snap(op, w, src, exc, wr2, inst2) ==
   [op |-> op, w |-> w, src |-> src, exc |-> exc, wr |-> wr2,
@@ -57,13 +64,15 @@ PyConstruct ==
   /\ Free # {} /\ CanCreate
   /\ inst' = Append(inst, NewInst("py", 0))
   /\ wr' = [wr EXCEPT ![NewSlot] = [ptr |-> Len(inst) + 1, mem |-> TRUE, const |-> FALSE]]
+  /\ UNCHANGED marks
   /\ Record("PyConstruct", NewSlot, 0, "")
 
 \* make() is const: allowed on const wrappers too; the copy is a fresh py-owned instance without parts
 ReturnByValue(src) ==
   /\ Usable(src) /\ Free # {} /\ CanCreate
-  /\ inst' = Append(inst, NewInst("py", 0))
+  /\ inst' = Append(inst, NewInstO("py", 0, "copy"))
   /\ wr' = [wr EXCEPT ![NewSlot] = [ptr |-> Len(inst) + 1, mem |-> TRUE, const |-> FALSE]]
+  /\ UNCHANGED marks
   /\ Record("ReturnByValue", NewSlot, src, "")
 
 \* the part of an instance is created by C++ on first use and dies with its parent
@@ -77,6 +86,7 @@ ReturnBorrowed(src) ==
   /\ (PartOf(wr[src].ptr) # 0 \/ CanCreate)
   /\ inst' = WithPart(wr[src].ptr)
   /\ wr' = [wr EXCEPT ![NewSlot] = [ptr |-> PartIx(wr[src].ptr), mem |-> FALSE, const |-> FALSE]]
+  /\ UNCHANGED marks
   /\ Record("ReturnBorrowed", NewSlot, src, "")
 
 ReturnConstRef(src) ==
@@ -84,30 +94,36 @@ ReturnConstRef(src) ==
   /\ (PartOf(wr[src].ptr) # 0 \/ CanCreate)
   /\ inst' = WithPart(wr[src].ptr)
   /\ wr' = [wr EXCEPT ![NewSlot] = [ptr |-> PartIx(wr[src].ptr), mem |-> FALSE, const |-> TRUE]]
+  /\ UNCHANGED marks
   /\ Record("ReturnConstRef", NewSlot, src, "")
 
 ReturnThis(src) ==
   /\ Usable(src) /\ ~wr[src].const /\ Free # {}
   /\ inst' = inst
   /\ wr' = [wr EXCEPT ![NewSlot] = [ptr |-> wr[src].ptr, mem |-> FALSE, const |-> FALSE]]
+  /\ UNCHANGED marks
   /\ Record("ReturnThis", NewSlot, src, "")
 
 ReturnStatic ==
   /\ Free # {}
   /\ inst' = inst
   /\ wr' = [wr EXCEPT ![NewSlot] = [ptr |-> 1, mem |-> FALSE, const |-> FALSE]]
+  /\ UNCHANGED marks
   /\ Record("ReturnStatic", NewSlot, 0, "")
 
+\* look() is a non-const method taking a const pointer: a const argument is fine, a const self raises
 PassToCpp(w, arg) ==
   /\ Usable(w) /\ Usable(arg)
   /\ UNCHANGED <<inst, wr>>
-  /\ Record("PassToCpp", w, arg, "")
+  /\ Mark(IF wr[w].const THEN "pass-on-const" ELSE IF wr[arg].const THEN "pass-const-arg" ELSE "pass")
+  /\ Record("PassToCpp", w, arg, IF wr[w].const THEN "TypeError" ELSE "")
 
 \* a non-const method: runs on a non-const wrapper, raises TypeError and changes nothing on a const one
 CallNonConst(w) ==
   /\ Usable(w)
   /\ inst' = IF wr[w].const THEN inst ELSE [inst EXCEPT ![wr[w].ptr].touched = @ + 1]
   /\ wr' = wr
+  /\ (IF wr[w].const THEN Mark("touch-on-const") ELSE marks' = marks)
   /\ Record("CallNonConst", w, 0, IF wr[w].const THEN "TypeError" ELSE "")
 
 RECURSIVE Parts(_, _)
@@ -123,6 +139,7 @@ DropWrapper(w) ==
                        ELSE inst[i]]
                ELSE inst
   /\ wr' = [wr EXCEPT ![w] = NoW]
+  /\ UNCHANGED marks
   /\ Record("DropWrapper", w, 0, "")
 
 Next == /\ Len(hist) < MaxDepth
@@ -157,7 +174,7 @@ FinalAccounting == AllDropped =>
       /\ (inst[i].owner = "cpp" /\ inst[i].parent # 0 => inst[i].destroyed = inst[inst[i].parent].destroyed)
 \* a non-const call on a const wrapper raised and changed nothing (stated on the recorded step)
 ConstRaises == \A n \in 1..Len(hist) :
-   hist[n].op = "CallNonConst" /\ hist[n].exc = "TypeError" =>
+   hist[n].exc = "TypeError" =>
       /\ hist[n].made = (IF n = 1 THEN 0 ELSE hist[n - 1].made)
       /\ hist[n].died = (IF n = 1 THEN 0 ELSE hist[n - 1].died)
       /\ (n > 1 => \A i \in 1..Len(hist[n - 1].touched) : hist[n].touched[i] = hist[n - 1].touched[i])
